@@ -1283,6 +1283,7 @@ func (e *Enc) assertsAt(call *ssa.Call) {
 		env := e.entryEnv()
 		env.st = e.st
 		env.old = e.entry
+		e.currentParams(env, e.st)
 		if byName {
 			c := call.Common()
 			args := c.Args
